@@ -421,6 +421,17 @@ func (ctx *RenderContext) GetMacro(name string) (interface{}, bool) {
 	return nil, false
 }
 
+// variableExists reports whether name is bound, possibly to null, in this
+// context or in one of the enclosing contexts
+func (ctx *RenderContext) variableExists(name string) bool {
+	for c := ctx; c != nil; c = c.parent {
+		if _, ok := c.context[name]; ok {
+			return true
+		}
+	}
+	return false
+}
+
 // GetMacros returns the macros map
 func (ctx *RenderContext) GetMacros() map[string]Node {
 	return ctx.macros
@@ -1016,13 +1027,11 @@ func (ctx *RenderContext) evaluateExpression(node Node) (interface{}, error) {
 		if n.test == "not defined" {
 			// Check if it's a variable reference
 			if varNode, ok := n.node.(*VariableNode); ok {
-				// Check directly in context
-				if ctx.context != nil {
-					_, exists := ctx.context[varNode.name]
-					if exists {
-						// If it exists, "not defined" is false
-						return false, nil
-					}
+				// A variable bound to null is defined, in this context as in the
+				// enclosing ones (an included template reads its includer's variables)
+				if ctx.variableExists(varNode.name) {
+					// If it exists, "not defined" is false
+					return false, nil
 				}
 
 				// Try full variable lookup
@@ -1074,12 +1083,10 @@ func (ctx *RenderContext) evaluateExpression(node Node) (interface{}, error) {
 
 			// Check for simple variable references
 			if varNode, ok := n.node.(*VariableNode); ok {
-				// Check directly in context
-				if ctx.context != nil {
-					_, exists := ctx.context[varNode.name]
-					if exists {
-						return true, nil
-					}
+				// A variable bound to null is defined, in this context as in the
+				// enclosing ones (an included template reads its includer's variables)
+				if ctx.variableExists(varNode.name) {
+					return true, nil
 				}
 
 				// Try full variable lookup
